@@ -510,7 +510,7 @@ theorem q_handleLogon (s : Sess) (m : InMsg) : Q 0 s (handleLogon s m).1 := by
     | none =>
       simp only []
       generalize hs3 : (if ((if s2.cfg.initiator = true then false else s2.cfg.resetOnLogon) || logonResetFlag m && !s2.sentReset) = true
-          then s2.storeReset else s2) = s3
+          then dropAndReset s2 else s2) = s3
       have h3 : Q 0 s s3 := by rw [← hs3]; q_peel
       have hv2 := q_verifySelect s3 m false true false
       generalize verifySelect s3 m false true false = r2 at hv2
@@ -1544,8 +1544,8 @@ theorem noNew_connect (s : Sess) : NoNew s (connect s).1 := by
       · exact h0.trans ⟨Nat.le_refl _, id, rfl⟩
       · have h1 : Q 0 s.openConn (if s.openConn.cfg.refreshOnLogon = true then s.openConn.emit Obs.refresh else s.openConn) := by q_peel
         generalize (if s.openConn.cfg.refreshOnLogon = true then s.openConn.emit Obs.refresh else s.openConn) = s1 at h1
-        have h2 : Q 0 s1 (if s1.cfg.resetOnLogon = true then s1.storeReset else s1) := by q_peel
-        generalize (if s1.cfg.resetOnLogon = true then s1.storeReset else s1) = s2 at h2
+        have h2 : Q 0 s1 (if s1.cfg.resetOnLogon = true then dropAndReset s1 else s1) := by q_peel
+        generalize (if s1.cfg.resetOnLogon = true then dropAndReset s1 else s1) = s2 at h2
         have h3 := q_sendLogonInReplyTo s2 (shouldSendReset s2)
         exact h0.trans (((h1.trans0 h2).trans0 h3).noNew.trans ⟨Nat.le_refl _, id, rfl⟩)
 
